@@ -391,6 +391,7 @@ func runCheck(o checkOpts) int {
 		}
 		if o.updateLock && ob.Sweep && ob.Status != "unsat" {
 			newUnclaimed[ob.Name] = "not discharged without further contracts when locked (" + ob.Status + ")"
+			unclaimedSeen = append(unclaimedSeen, ob.Name+" ("+newUnclaimed[ob.Name]+")")
 			continue
 		}
 		nClaimed++
